@@ -22,6 +22,7 @@ var opKindsDepth = []string{
 	"getI", "getAbsent", "clear",
 	"asc", "asc", "asc", "desc", "desc", "zig", "zig", "drain", "drain", "rm2",
 	"deep", "deep", "deep", "deep", "deep", "deep", "bulkremove", "prune", "clone", "switch", "switch",
+	"shape",
 }
 
 func genOp(kinds []string) *rapid.Generator[Op] {
@@ -38,7 +39,7 @@ func genOp(kinds []string) *rapid.Generator[Op] {
 			op.A = rapid.IntRange(0, 400).Draw(t, "a")
 		}
 		switch k {
-		case "after", "afterI", "afterAbsent", "drain", "deep", "cursor", "cursorI", "asc", "desc", "zig", "ascL", "descL":
+		case "after", "afterI", "afterAbsent", "drain", "deep", "cursor", "cursorI", "asc", "desc", "zig", "ascL", "descL", "shape":
 			op.B = rapid.IntRange(0, 400).Draw(t, "b")
 		}
 		return op
@@ -101,6 +102,10 @@ func genTreeCase(depth bool) func(t *rapid.T) TreeCase {
 			if depth && c.Beta >= 900 && rapid.Bool().Draw(t, "long") {
 				// loose factors: only a long path-extending run gets near the bound
 				ins(Op{Kind: rapid.SampledFrom([]string{"ascL", "descL"}).Draw(t, "longKind"), A: rapid.IntRange(0, 1399).Draw(t, "longLen"), B: rapid.IntRange(0, 2).Draw(t, "longVia")})
+			}
+			if depth && c.Beta <= 300 && rapid.IntRange(0, 3).Draw(t, "shaped") == 0 {
+				// tight factors: a lopsided but nowhere badly split shape
+				ins(Op{Kind: "shape", A: rapid.IntRange(0, 14).Draw(t, "shapeA"), B: rapid.IntRange(0, 400).Draw(t, "shapeB")})
 			}
 			if depth {
 				ins(Op{Kind: "deep", A: rapid.IntRange(0, 5).Draw(t, "deepN"), B: rapid.IntRange(0, 400).Draw(t, "deepB")})
